@@ -9,6 +9,11 @@ TB = "CPython 3.12, crosshair-tool 0.0.110, z3 5.1; the import shim of lib/repo_
 
 # id -> (category, technique, text, note, design_ref, engine)
 CHECKS = {
+    "C08": ("translation_validation",
+            "real check() verdict per program (concrete) vs. a definedness / type path oracle run by CrossHair/z3 over symbolic branch-decision vectors (one vector for definedness, two for type conflicts), with solver-produced witnesses for every rejection",
+            "Restricted: the solver ranges over paths and pairs of paths; the real checker runs concretely on a generated corpus (70 quick / 1200 thorough + 13 fixed; assignments of int/bool/float/tuple and copies, generic reads, "
+            "if/else, while, for, break/continue/return). Accepted => no path reaches an unassigned read and no two paths reach one read site with different types; rejected as not-defined / different-types => the solver exhibits that path / pair (replayed).",
+            TB + "; lib/e8.py oracle and generator; every syntactic path feasible", "DESIGN.md §5 C08", "E4"),
     "C06": ("translation_validation",
             "real check() verdict per core-fragment program (concrete) vs. a dynamic path oracle run by CrossHair/z3 over symbolic branch-decision vectors: no faulting path for accepted programs, a solver-produced faulting path for each rejected one",
             "Restricted: the solver ranges over control-flow paths (decision vectors of up to 10 opaque conditions), the real linearity checker runs concretely on each program of a generated corpus (60 quick / 1200 thorough + 28 fixed; "
